@@ -5,7 +5,9 @@ Proof:  coq/Properties/C13.v (deliveries appended with fresh larger UIDs and \\R
 Tie:    X on Model/Mbox.v with an external MH agent (stdlib mailbox.MH) delivering single messages
         and batches, seen or unseen, to selected / idling / unselected / inactive mailboxes, followed
         by polls or commands; after EVERY command the folder's .mh_sequences is read "as an MH tool
-        would" and compared with what the IMAP sessions see (no removed message mentioned).
+        would" and compared with what the IMAP sessions see (no removed message mentioned);
+        X on Model/MhSeq.v: Mailbox.set_sequences_in_folder / _get_sequences_update_seen (real methods) on generated
+        (msg_keys, sequences, folder file, forget, recent) inputs.
 """
 import json
 
@@ -86,6 +88,125 @@ def midcommand_deliveries(ctx):
     ctx.extra["midcommand_delivery_cases"] = n
 
 
+def mhseq_level(ctx):
+    """Mailbox.set_sequences_in_folder and Mailbox._get_sequences_update_seen (the real methods, on a Mailbox object whose
+    MH folder is a recording stand-in for mailbox.MH.get_sequences/set_sequences) against Model/MhSeq.v: the dict handed to
+    MH.set_sequences and the dict returned are compared with the model inside Coq, as sets per sequence name."""
+    import asyncio
+    import re
+    from asimap.mbox import Mailbox
+    from core import clist, cz, cstr
+
+    NAMES = ["unseen", "Seen", "flagged", "replied", "Recent", "kw1", "Deleted"]
+    rng = ctx.rng
+
+    class Folder:
+        def __init__(self, seqs):
+            self.seqs, self.written, self._path = seqs, None, "/nonexistent"
+
+        def get_sequences(self):
+            return {k: list(v) for k, v in self.seqs.items()}
+
+        def set_sequences(self, d):
+            self.written = {k: list(v) for k, v in d.items()}
+
+    class Locked:
+        def locked(self):
+            return True
+
+    def some(pool, p):
+        return sorted(k for k in pool if rng.random() < p)
+
+    def mk(msg_keys, folder):
+        mb = Mailbox.__new__(Mailbox)
+        mb.mailbox, mb.msg_keys, mb.mh_sequences_lock = Folder(folder), list(msg_keys), Locked()
+        mb.marked = lambda m: False
+        mb.name, mb.server = "x", type("S", (), {"active_mailboxes": {}})()   # for __del__
+        return mb
+
+    def canon(d):
+        return [sorted(set(int(x) for x in d.get(n, ()))) for n in NAMES] if d is not None else None
+
+    wcases, ucases = [], []
+    loop = asyncio.new_event_loop()
+    try:
+        for k in range(600 if ctx.thorough else 160):
+            msg_keys = some(range(1, 13), rng.choice([0.0, 0.3, 0.6, 0.9]))
+            hi = msg_keys[-1] if msg_keys else 0
+            newer = list(range(hi + 1, hi + 1 + rng.randint(0, 3)))
+            seqs = {n: some(msg_keys + (newer if rng.random() < 0.1 else []), rng.choice([0.2, 0.5])) for n in NAMES if rng.random() < 0.6}
+            folder = {n: some(list(range(1, hi + 1)) + newer * 2, 0.45) for n in NAMES if rng.random() < 0.6}
+            folder = {n: v for n, v in folder.items() if v}
+            forget = some(newer + msg_keys[-2:], 0.3) if rng.random() < 0.5 else []
+            mb = mk(msg_keys, folder)
+            mb.set_sequences_in_folder({n: set(v) for n, v in seqs.items()}, forget=tuple(forget))
+            wcases.append((msg_keys, seqs, forget, folder, canon(mb.mailbox.written)))
+            ctx.count({"set_sequences_in_folder": {"msg_keys": msg_keys, "seqs": seqs, "forget": forget, "folder": folder}},
+                      nontrivial=bool(newer) and any(set(v) & set(newer) for v in folder.values()))
+            # reading side
+            recent = some(msg_keys[-3:], 0.5) if rng.random() < 0.5 else []
+            mb = mk(msg_keys, folder)
+            ret = loop.run_until_complete(mb._get_sequences_update_seen(list(recent) if rng.random() < 0.8 else None if not recent else list(recent)))
+            ucases.append((msg_keys, folder, recent, canon({n: v for n, v in ret.items()}), canon(mb.mailbox.written)))
+            ctx.count({"_get_sequences_update_seen": {"msg_keys": msg_keys, "folder": folder, "recent": recent}},
+                      nontrivial=bool(folder.get("unseen")) and bool(msg_keys))
+    finally:
+        loop.close()
+
+    def cseqs(d):
+        return clist([f"({cstr(n)}, {clist([cz(x) for x in v])})" for n, v in d.items()])
+
+    def cl(l):
+        return clist([cz(x) for x in l])
+
+    def cll(ll):
+        return clist([cl(l) for l in ll])
+
+    t = "From Asimap Require Import Base.Res Model.MhSeq.\nOpen Scope Z_scope.\n"
+    t += "Definition NAMES : list string := " + clist([cstr(n) for n in NAMES]) + ".\n"
+    t += ("Fixpoint zl_eqb (a b : list Z) := match a, b with [], [] => true | x :: a', y :: b' => (x =? y) && zl_eqb a' b' "
+          "| _, _ => false end.\n"
+          "Fixpoint zll_eqb (a b : list (list Z)) := match a, b with [], [] => true | x :: a', y :: b' => zl_eqb x y && zll_eqb a' b' "
+          "| _, _ => false end.\n"
+          "Definition canon (s : seqs) : list (list Z) := map (fun n => sorted_set (seq_of s n)) NAMES.\n"
+          "Definition chkw (c : list Z * seqs * list Z * seqs * list (list Z)) : bool := "
+          "let '(mk, s, forget, folder, want) := c in zll_eqb (canon (written mk s forget folder)) want.\n"
+          "Definition chku (c : list Z * seqs * list Z * list (list Z) * option (list (list Z))) : bool := "
+          "let '(mk, folder, recent, ret, wr) := c in let s' := update_seen mk folder recent in "
+          "zll_eqb (canon s') ret && match wr with Some w => zll_eqb (canon (written mk s' [] folder)) w "
+          "| None => zll_eqb (canon s') (canon folder) end.\n"
+          "Fixpoint bad {A} (chk : A -> bool) (i : nat) (cs : list A) := match cs with [] => [] | c :: r => "
+          "if chk c then bad chk (S i) r else i :: bad chk (S i) r end.\n")
+    t += ("Definition wcases : list (list Z * seqs * list Z * seqs * list (list Z)) := "
+          + clist([f"({cl(mk_)}, {cseqs(s_)}, {cl(fg)}, {cseqs(fo)}, {cll(w)})" for mk_, s_, fg, fo, w in wcases]) + ".\n")
+    t += ("Definition ucases : list (list Z * seqs * list Z * list (list Z) * option (list (list Z))) := "
+          + clist([f"({cl(mk_)}, {cseqs(fo)}, {cl(rc)}, {cll(ret)}, {core.copt(wr, cll)})" for mk_, fo, rc, ret, wr in ucases]) + ".\n")
+    t += "Eval vm_compute in (bad chkw 0 wcases).\nEval vm_compute in (bad chku 0 ucases).\n"
+    out = ctx.coq.eval_cases("c13mhseq", t)
+    vals = core.parse_coq_values(out)
+    for i in [int(x) for x in re.findall(r"\d+", vals[0])][:3]:
+        mk_, s_, fg, fo, w = wcases[i]
+        # is the property itself broken on this input?  a key the server knows must be listed exactly as the server has it;
+        # a newer key of the folder that was not removed must be kept
+        hi = mk_[-1] if mk_ else 0
+        wrong = [(n, k) for j, n in enumerate(NAMES) for k in range(1, hi + 4)
+                 if (k in w[j]) != ((k in s_.get(n, ())) or (k > hi and k not in fg and k in fo.get(n, ())))]
+        ctx.violation("set_sequences_in_folder does not write what the proved model writes"
+                      + (f": sequence/key {wrong[0]} is wrong in the file" if wrong else ""),
+                      {"msg_keys": mk_, "seqs": s_, "forget": fg, "folder_file": fo, "written": dict(zip(NAMES, w)),
+                       "correspondence": "Model/MhSeq.v written"}, found_input=bool(wrong))
+    for i in [int(x) for x in re.findall(r"\d+", vals[1])][:3]:
+        mk_, fo, rc, ret, wr = ucases[i]
+        seen = ret[NAMES.index("Seen")]
+        want = sorted(k for k in mk_ if k not in fo.get("unseen", ()))
+        ctx.violation("_get_sequences_update_seen does not return/write what the proved model does"
+                      + (f": Seen={seen}, complement of unseen among the messages={want}" if seen != want else ""),
+                      {"msg_keys": mk_, "folder_file": fo, "recent": rc, "returned": dict(zip(NAMES, ret)),
+                       "written": dict(zip(NAMES, wr)) if wr else None, "correspondence": "Model/MhSeq.v update_seen"},
+                      found_input=seen != want)
+    ctx.extra["mhseq_cases"] = {"set_sequences_in_folder": len(wcases), "_get_sequences_update_seen": len(ucases)}
+
+
 def run(ctx):
     ctx.coverage["rule"] = ("histories of 45/70 commands with an external MH agent delivering 1-3 messages (70% listed in "
                             "`unseen`) between IMAP commands from selected, idling and unselected sessions, management-task "
@@ -128,6 +249,7 @@ def run(ctx):
                            "after": h.snaps[k][1]["boxes"] if h.snaps[k][1] else None})
     ctx.extra["histories_with_unseen_deliveries"] = len(sh)
     midcommand_deliveries(ctx)
+    mhseq_level(ctx)
     ctx.coq.build(["Model/MboxCmp.vo"])
     bad, _ = mboxx.compare(ctx, "c13", hs)
     report_diffs(ctx, "C13", hs, bad, "model (proved) and implementation disagree on what sessions are told about deliveries")
@@ -136,7 +258,9 @@ def run(ctx):
     ctx.assume += ["'once the folder's modification time has advanced' = the agent's write moves the directory mtime to a "
                    "later time than the mailbox's stored mtime (the harness moves it 2 s ahead with utime; since fix 782ae6b the server "
                    "compares at the file system's resolution, before that in whole seconds)",
-                   "the content of .mh_sequences is not part of Model/Mbox.v: that clause is decided by the oracle on the real file"]
+                   "the content of .mh_sequences: what the server hands to MH.set_sequences and what it derives on reading is "
+                   "Model/MhSeq.v (proved, tied by correspondence to the real methods on a stand-in folder); the file format itself "
+                   "is stdlib mailbox.MH; that the model of the world and the file agree after every command is decided by the oracle on the real file"]
 
 
 def replay(ctx, path):
